@@ -53,6 +53,28 @@ func runMatcherProperty(t *testing.T, prop string) {
 	if err != nil {
 		t.Fatalf("oracle: %v", err)
 	}
+	// spec on implementation output: every outcome the REAL driver accepted is judged by the Lean
+	// genuineness predicate (evaluated on the raw packet bytes, with the model's record of what
+	// had been sent at that point)
+	jlines := make([]string, len(cases))
+	for i, mc := range cases {
+		toks := make([]string, len(mc.Steps))
+		for k, st := range mc.Steps {
+			toks[k] = st.OrTok
+			if !st.Op.Send && strings.HasPrefix(st.Impl, "acc:") {
+				f := strings.Split(st.Impl, ":")
+				toks[k] = fmt.Sprintf("j:%s:%s:%s:%s", hx2(st.Op.Pkt), f[1], f[2], f[3])
+			}
+		}
+		jlines[i] = mc.Cfg.oraclePrefix() + " " + strings.Join(toks, " ")
+	}
+	janswers, err := orc.Batch(jlines)
+	if err != nil {
+		t.Fatalf("oracle(judge): %v", err)
+	}
+	for i, mc := range cases {
+		mc.Judged = strings.Split(janswers[i], " ")
+	}
 	for i, mc := range cases {
 		want := strings.Split(answers[i], " ")
 		if len(want) != len(mc.Steps) {
@@ -98,6 +120,9 @@ func specOnImpl(prop string, mc *matcherCase, k int) string {
 	st := mc.Steps[k]
 	if st.Impl == "panic" {
 		return "driver panicked on an inbound packet"
+	}
+	if !st.Op.Send && strings.HasPrefix(st.Impl, "acc:") && k < len(mc.Judged) && mc.Judged[k] == "g:0" && (prop == "C01" || prop == "C04" || prop == "C02") {
+		return "the driver accepted " + st.Impl + " but the packet is not a genuine reply to that probe (Spec.genuine* is false on the raw bytes)"
 	}
 	switch prop {
 	case "C09":
